@@ -463,7 +463,7 @@ func (prop) Generate(r *core.RNG, tr string) []json.RawMessage {
 	}
 	n := 26
 	if tr == "thorough" {
-		n = 220
+		n = 120
 	}
 	for i := 0; i < n; i++ {
 		var in *Input
